@@ -203,7 +203,7 @@ def r15_2(prog: Program, res: Result, ev: Evaluator, rule: str) -> None:
         h = caught(c, f, "Exception")
         local = h is not None and handler_raises_signal(h)
         if local:
-            res.ok(rule, f.loc(c), f.fq, f"{kind}: {short(c, 70)}", "enclosed by a handler that converts any Exception into ValueError")
+            res.ok(rule, f.loc(c), f.fq, f"{short(c, 70)} # {kind}", "enclosed by a handler that converts any Exception into ValueError")
     # what can leave the public entry
     leaks = esc.get(ev.entry.key, [])
     member_sites = ev.primitive_sites()
@@ -215,7 +215,7 @@ def r15_2(prog: Program, res: Result, ev: Evaluator, rule: str) -> None:
         leaking = any(True for _ in leaks) if f.key != ev.entry.key else any(x[0] is c for x in leaks)
         if f.key != ev.entry.key:
             leaking = bool(esc.get(f.key)) and bool(leaks)
-        res.decide(not leaking, rule, f.loc(c), f.fq, f"{kind}: {short(c, 70)}",
+        res.decide(not leaking, rule, f.loc(c), f.fq, f"{short(c, 70)} # {kind}",
                    "exceptions are converted to the signal before leaving core.literal_value" if not leaking else
                    f"an exception raised by this {kind} (ZeroDivisionError, TypeError, ...) leaves core.literal_value unconverted: the formatter crashes instead of treating the expression as unknown")
     # external call sites handle the signal
@@ -363,7 +363,7 @@ def _r15_7(prog: Program, res: Result, ev: Evaluator) -> None:
                 if subject in txt and (" in " in txt or txt.startswith("in(")) and "constants." not in txt and "builtins" not in txt:
                     has = has or (not fct[2])
             ok = ok and has
-        res.decide(ok, "R15.7", f.loc(c), f.fq, f"{kind}: {short(c, 70)}",
+        res.decide(ok, "R15.7", f.loc(c), f.fq, f"{short(c, 70)} # {kind}",
                    "reached only for names the analysed module does not rebind" if ok else
                    f"`{subject}` is resolved to the builtin without any test against the names the analysed module binds: with `def len(x): return 5` "
                    "in the module, `len([1]) == 1` is still folded to True")
@@ -396,7 +396,7 @@ def _r15_6(prog: Program, res: Result, ev: Evaluator) -> None:
                 ok = ok and has
             why = "reached only for calls without keyword arguments" if ok else \
                 "the call is evaluated from its positional arguments although it may carry keyword arguments, which are dropped: the value differs from Python's (int('10', base=2), sorted(x, reverse=True), max(x, key=...))"
-        res.decide(ok, "R15.6", f.loc(c), f.fq, f"{kind}: {short(c, 70)}", why)
+        res.decide(ok, "R15.6", f.loc(c), f.fq, f"{short(c, 70)} # {kind}", why)
 
 
 # ---------------------------------------------------------------------------------------------- self-test
